@@ -151,14 +151,14 @@ class View:
         self.st = self.fsm.is_
 
 
-def make(kind, MAX, with_reset=False):
+def make(kind, MAX, with_reset=False, allow_discard=False):
     def contract(c):
         V = View(c, kind, MAX)
-        build(c, V)
+        build(c, V, allow_discard=allow_discard)
     return contract
 
 
-def build(c, V, allow_reset=False, only=None):
+def build(c, V, allow_reset=False, only=None, allow_discard=False):
     """Declares ghosts, invariants and the C11 ensures on view V.  With allow_reset (used by C14) the PID-sequence reset
     input stays free and the toggle bookkeeping follows the statement of C14 (`only`: subset of ensures/covers to emit);
     returns the ghost dictionary."""
@@ -174,8 +174,17 @@ def build(c, V, allow_reset=False, only=None):
     valid, first, last, tx_ready, nak = V.valid, V.first, V.last, V.tx_ready, V.nak
 
     # ------------------------------------------------------------------ requires
-    c.require("no_discard", I["i_discard"] == 0,
-              why="the statement quantifies over streams, flush, tokens, ACKs and PHY ready patterns, not over `discard`")
+    if not allow_discard:
+        disc = None
+        c.require("no_discard", I["i_discard"] == 0,
+                  why="the statement quantifies over streams, flush, tokens, ACKs and PHY ready patterns, not over `discard`")
+    else:
+        disc = I["i_discard"] == 1
+        c.require("no_transfer_end_offered_while_discarding", z3.Not(z3.And(disc, I["i_valid"] == 1, I["i_last"] == 1)),
+                  why="FINDING (code does not handle it): transfer_stream.ready is not gated by discard; a byte marked `last` accepted "
+                      "in a discard cycle leaves the emptied write buffer marked 'ended' (spurious ZLP later)")
+    nd = (lambda e: z3.And(e, z3.Not(disc))) if allow_discard else (lambda e: e)          # ... and no discard in this cycle
+    onD = (lambda dv, e: z3.If(disc, dv, e)) if allow_discard else (lambda dv, e: e)      # value forced by a discard
     if not allow_reset:
         c.require("no_pid_sequence_reset", z3.Not(V.reset_seq),
                   why="PID-sequence reset (CLEAR_FEATURE(ENDPOINT_HALT)) is the subject of C14, not of this property")
@@ -202,42 +211,50 @@ def build(c, V, allow_reset=False, only=None):
                   why="the clear-halt strobe coincides with the ACK of the control transfer's status stage; the SETUP/IN tokens of "
                       "that control transfer precede it, and any token ends this endpoint's wait for an ACK; the endpoint is not "
                       "transmitting while the host sends a handshake (half-duplex bus)")
+    if allow_discard:
+        c.require("no_discard_while_a_packet_is_being_transmitted", z3.Not(z3.And(disc, sending)),
+                  why="FINDING (code does not handle it): SEND_PACKET ignores discard while the fill count is zeroed under it; "
+                      "`last` (send_position+1 == fill count) then never comes and the packet does not end")
     c.require("transmitter_not_ready_in_first_cycle_of_a_packet", z3.Implies(z3.And(sending, fresh == 1), z3.Not(tx_ready)),
               why="USBDataPacketGenerator holds stream.ready low in IDLE and SEND_PID: the first payload byte is taken at "
                   "least two cycles after valid&first is first presented")
 
     zlp_now = z3.And(idle, in_token, valid)                      # a token answered in the same cycle: zero-length packet
-    start_data = z3.And(idle, in_token, z3.Not(nak), z3.Not(valid))   # a token answered with neither NAK nor ZLP: data follows
+    start_data = nd(z3.And(idle, in_token, z3.Not(nak), z3.Not(valid)))   # a token answered with neither NAK nor ZLP: data follows
     xfer = z3.And(sending, valid, tx_ready)                      # a payload byte is taken by the transmitter
     done = z3.And(xfer, last)                                    # ... and it is the packet's final byte
     acked = z3.And(await_, ack)                                  # the host ACKs a completely transmitted packet
     one = lambda w: bvc(1, w)
 
     c.set_next(n_in, z3.If(accept, n_in + 1, n_in))
-    c.set_next(n_ack, z3.If(acked, n_ack + z16(plen), n_ack))
-    c.set_next(ph, z3.If(idle, z3.If(zlp_now, bvc(AWAIT, 2), z3.If(start_data, bvc(SENDING, 2), bvc(IDLE, 2))),
+    # discard (spec): everything accepted up to and including this cycle is forgotten -- the ACK frontier jumps to the input
+    # position, no attempt is outstanding, no retry, no ZLP obligation; a completely sent packet whose handshake is outstanding
+    # counts as delivered for the toggle (the code leaves the PID advanced), otherwise the toggle is kept ("undo the toggle")
+    c.set_next(n_ack, onD(z3.If(accept, n_in + 1, n_in), z3.If(acked, n_ack + z16(plen), n_ack)))
+    c.set_next(ph, onD(bvc(IDLE, 2), z3.If(idle, z3.If(zlp_now, bvc(AWAIT, 2), z3.If(start_data, bvc(SENDING, 2), bvc(IDLE, 2))),
                     z3.If(sending, z3.If(done, bvc(AWAIT, 2), bvc(SENDING, 2)),
-                          z3.If(z3.Or(acked, new_token), bvc(IDLE, 2), bvc(AWAIT, 2)))))
-    c.set_next(retry, z3.If(acked, bvc(0, 1), z3.If(z3.And(await_, new_token), bvc(1, 1), retry)))
+                          z3.If(z3.Or(acked, new_token), bvc(IDLE, 2), bvc(AWAIT, 2))))))
+    c.set_next(retry, onD(bvc(0, 1), z3.If(acked, bvc(0, 1), z3.If(z3.And(await_, new_token), bvc(1, 1), retry))))
     c.set_next(gpos, z3.If(z3.And(sending, z3.Not(done)), z3.If(xfer, gpos + 1, gpos), bvc(0, FW)))
     c.set_next(plen, z3.If(z3.And(zlp_now, retry == 0), bvc(0, FW), z3.If(z3.And(done, retry == 0), gpos + 1, plen)))
     pid_reset = V.reset_seq if allow_reset else z3.BoolVal(False)
-    c.set_next(exp_pid, z3.If(pid_reset, z3.If(V.start_d1, one(1), bvc(0, 1)), z3.If(acked, ~exp_pid, exp_pid)))
+    flip = z3.Or(acked, z3.And(disc, await_)) if allow_discard else acked
+    c.set_next(exp_pid, z3.If(pid_reset, z3.If(V.start_d1, one(1), bvc(0, 1)), z3.If(flip, ~exp_pid, exp_pid)))
     c.set_next(fresh, z3.If(start_data, one(1), bvc(0, 1)))
     c.set_next(tail_last, z3.If(accept, I["i_last"], tail_last))
     all_acked_after = z3.And(n_ack + z16(plen) == n_in, z3.Not(accept))
-    c.set_next(zlp_due, z3.If(acked, z3.If(z3.And(plen == MAX, V.gen_zlps, all_acked_after, tail_last == 1), one(1), bvc(0, 1)),
-                         z3.If(accept, bvc(0, 1), zlp_due)))
+    c.set_next(zlp_due, onD(bvc(0, 1), z3.If(acked, z3.If(z3.And(plen == MAX, V.gen_zlps, all_acked_after, tail_last == 1), one(1), bvc(0, 1)),
+                         z3.If(accept, bvc(0, 1), zlp_due))))
     hit = z3.And(accept, n_in == k)
     c.set_next(v, z3.If(hit, I["i_payload"], v))
     c.set_next(vl, z3.If(hit, I["i_last"], vl))
     lal = c.ghost("lal", FW)                                      # length of the most recently ACKed packet
-    c.set_next(lal, z3.If(acked, plen, lal))
+    c.set_next(lal, onD(bvc(0, FW), z3.If(acked, plen, lal)))   # ... since the last discard (0: none)
     fk = c.ghost("fk", 1)                                        # `flush` was asserted in or after the cycle byte k was accepted
     c.set_next(fk, z3.If(hit, I["i_flush"], fk | I["i_flush"]))
     final_is_k = n_ack + z16(plen) - 1 == k                      # byte k is the final byte of the outstanding packet
-    c.set_next(zlp_owed, z3.If(acked, z3.If(z3.And(plen == MAX, V.gen_zlps, final_is_k, vl == 1, plen != 0), one(1), bvc(0, 1)),
-                          zlp_owed))
+    c.set_next(zlp_owed, onD(bvc(0, 1), z3.If(acked, z3.If(z3.And(plen == MAX, V.gen_zlps, final_is_k, vl == 1, plen != 0), one(1), bvc(0, 1)),
+                          zlp_owed)))
 
     # ------------------------------------------------------------------ abstraction (representation invariant)
     rfill, wfill, pos = V.rfill, V.wfill, V.pos
@@ -292,7 +309,7 @@ def build(c, V, allow_reset=False, only=None):
     c.ensure("retry_repeats_payload_length",
              z3.Implies(z3.And(sending, retry == 1), last == (gpos + 1 == plen)),
              clause="a retried packet repeats the same payload (same length; bytes by the position clause)")
-    c.ensure("retry_of_zlp_is_zlp", z3.Implies(z3.And(idle, retry == 1, in_token), z3.If(plen == 0, zlp_now, start_data)),
+    c.ensure("retry_of_zlp_is_zlp", z3.Implies(nd(z3.And(idle, retry == 1, in_token)), z3.If(plen == 0, zlp_now, start_data)),
              clause="a retried packet repeats the same payload: an un-ACKed packet is re-sent at the next IN token (ZLP stays ZLP), never NAKed")
     c.ensure("every_attempt_carries_expected_pid", z3.Implies(z3.Or(sending, zlp_now, start_data), V.pid == zx(exp_pid, 2)),
              clause="each new packet carries the DATA0/DATA1 toggle following the last ACKed one (DATA0 first); a retried packet repeats the same PID")
@@ -313,8 +330,8 @@ def build(c, V, allow_reset=False, only=None):
              clause="transfer boundaries are preserved: a packet shorter than the max packet size ends with the byte marked `last`, unless "
                     "`flush` was requested while its bytes were buffered (then it is sent as soon as possible, by definition of flush)")
     c.ensure("full_final_packet_is_followed_by_zlp",
-             z3.Implies(zlp_owed == 1, z3.And(z3.Not(sending), z3.Implies(z3.And(idle, in_token), zlp_now),
-                                              z3.Implies(z3.Not(acked), n(zlp_owed) == 1))),
+             z3.Implies(zlp_owed == 1, z3.And(z3.Not(sending), z3.Implies(nd(z3.And(idle, in_token)), zlp_now),
+                                              z3.Implies(nd(z3.Not(acked)), n(zlp_owed) == 1))),
              clause="every transfer ends with a short packet or a zero-length packet: after a full-size final packet is ACKed the next IN token gets a ZLP")
     c.ensure("zlp_only_after_full_final_packet",
              z3.Implies(z3.And(zlp_now, k == n_ack - 1), z3.And(vl == 1, lal == MAX)),
@@ -326,16 +343,44 @@ def build(c, V, allow_reset=False, only=None):
     c.ensure("in_token_without_data_is_naked",
              z3.Implies(z3.And(in_token, idle, retry == 0, n_in == n_ack, zlp_due == 0), nak),
              clause="an IN token finding no data is NAKed")
-    c.ensure("in_token_is_answered", z3.Implies(z3.And(in_token, idle), z3.Or(nak, zlp_now, start_data)),
+    c.ensure("in_token_is_answered", z3.Implies(nd(z3.And(in_token, idle)), z3.Or(nak, zlp_now, start_data)),
              clause="each IN token (no transmission in progress) is answered by a NAK, a ZLP or a data packet")
     c.ensure("data_follows_accepted_token", z3.Implies(start_data, z3.And(n(valid), n(first))),
              clause="an IN token that is not NAKed is answered with the packet, starting in the next cycle")
-    c.ensure("ack_frontier_moves_by_packets", z3.Implies(z3.Not(acked), n(n_ack) == n_ack),
+    c.ensure("ack_frontier_moves_by_packets", z3.Implies(nd(z3.Not(acked)), n(n_ack) == n_ack),
              clause="taking each toggled packet once: only an ACK of a completely sent packet advances the stream position")
     c.ensure("buffering_bounded", z3.ULE(unacked, 2 * MAX),
              clause="input is accepted only while one of the two packet buffers has room (transfer_stream.ready)")
     c.ensure("ready_iff_room", z3.Implies(O["o_ready"] == 1, z3.ULT(unacked, 2 * MAX)),
              clause="transfer_stream.ready only while there is room")
+
+    if allow_discard:
+        dz = c.ghost("dz", 1)                                     # a discard happened and no packet has been ACKed since
+        c.set_next(dz, z3.If(disc, one(1), z3.If(acked, bvc(0, 1), dz)))
+        c.inv("no_empty_packet_pending_after_discard", z3.Implies(dz == 1, z3.Not(z3.And(pend, rfill == 0))))
+        c.inv("no_zlp_obligation_after_discard", z3.Implies(dz == 1, z3.And(zlp_due == 0, zlp_owed == 0, lal == 0)))
+        c.ensure("nothing_driven_while_discarding", z3.Implies(disc, z3.And(z3.Not(valid), z3.Not(start_data), z3.Not(zlp_now))),
+                 clause="(discard) no packet is started or driven in a cycle `discard` is high (no transmission is in progress: assumption)")
+        c.ensure("discard_empties_both_buffers",
+                 z3.Implies(disc, z3.And(n(O["o_ready"] == 1), n(z3.Not(valid)),
+                                         z3.Implies(z3.And(n(in_token), z3.Not(n(I["i_valid"] == 1))), n(nak)))),
+                 clause="(discard) after a discard cycle both buffers are empty: the input stream is ready again (no full or ended buffer "
+                        "left over) and an IN token arriving before new data is offered is NAKed -- neither data nor a ZLP accepted/owed "
+                        "before the discard is sent")
+        c.ensure("no_zlp_after_discard_until_a_packet_is_acked", z3.Implies(dz == 1, z3.Not(zlp_now)),
+                 clause="(discard) pending end-of-transfer / ZLP obligations are forgotten: no zero-length packet is sent after a discard "
+                        "until a packet made of newly accepted data has been ACKed")
+        c.ensure("nothing_accepted_before_discard_is_sent",
+                 z3.Implies(disc, z3.And(n(n_ack) == n(n_in), n(idle), n(retry) == 0)),
+                 clause="(discard, spec machine) the ACK frontier jumps to the input position: by the position clause every byte sent later "
+                        "is an input byte accepted after the discard; nothing is outstanding or to be retried")
+        c.ensure("pid_after_discard",
+                 z3.Implies(disc, n(V.pid) == z3.If(await_, V.pid, z3.If(st("WAIT_FOR_DATA"), V.pid, V.pid ^ 1))),
+                 clause="(discard) data PID as the code documents: the toggle made for a prepared but not completely sent packet is undone; "
+                        "after a completely sent packet (handshake outstanding) the PID stays advanced")
+        c.cover("discard_with_ended_background_buffer", z3.And(disc, V.wended, V.rfill != 0))
+        c.cover("discard_while_waiting_for_ack", z3.And(disc, await_))
+        c.cover("packet_sent_after_discard", z3.And(dz == 1, xfer, n_ack != 0))
 
     # ------------------------------------------------------------------ vacuity
     c.cover("witness_byte_sent", z3.And(xfer, n_ack + z16(gpos) == k, k == 1, v == 0xA5))
@@ -375,6 +420,115 @@ def generator_support(c):
     c.cover("payload_byte_taken", z3.And(O["o_ready"] == 1, I["i_valid"] == 1))
 
 
+def multibyte(W, MAX=8, epnum=2):
+    """USBMultibyteStreamInEndpoint(byte_width=W) at the boundary between its W-byte-wide input stream and the byte stream
+    of the inner (real) USBStreamInEndpoint.  The inner endpoint is part of the unit; its stream.ready is a function of its
+    own (here unconstrained) state, so the clauses hold for every back-pressure pattern.
+
+    Spec-side ghost machine (functions of the word stream and of the byte-stream handshake only):
+        busy   a word has been accepted whose bytes have not all been taken by the inner endpoint
+        idx    number of bytes of that word already taken (0..W-1)
+        cur, cf, cl   payload / first / last of the accepted word
+        nw, nb 16-bit modular counts of words accepted / bytes taken
+      symbolic witness: k a word position, wv/wf/wl payload, first and last flags of the word accepted at position k."""
+    from luna.gateware.usb.usb2.endpoints.stream import USBMultibyteStreamInEndpoint
+
+    def contract(c):
+        d = USBMultibyteStreamInEndpoint(byte_width=W, endpoint_number=epnum, max_packet_size=MAX)
+        itf = d.interface
+        ports = {
+            "i_valid": d.stream.valid, "i_payload": d.stream.payload, "i_first": d.stream.first, "i_last": d.stream.last,
+            "o_ready": d.stream.ready,
+            "i_tok_endpoint": itf.tokenizer.endpoint, "i_tok_is_in": itf.tokenizer.is_in,
+            "i_tok_rfr": itf.tokenizer.ready_for_response, "i_tok_new": itf.tokenizer.new_token,
+            "i_ack": itf.handshakes_in.ack, "o_nak": itf.handshakes_out.nak,
+            "i_tx_ready": itf.tx.ready, "o_tx_valid": itf.tx.valid, "o_tx_first": itf.tx.first, "o_tx_last": itf.tx.last,
+            "o_tx_payload": itf.tx.payload, "o_pid": itf.tx_pid_toggle, "i_clear_halt": itf.clear_endpoint_halt_in.as_value()}
+        ts = c.unit(d, ports)
+        I, O = ts.inputs, ts.outputs
+        inner = ts.instance(USBStreamInEndpoint)
+        bs = inner.stream
+        bvalid, bready = ts.of(bs.valid) == 1, ts.of(bs.ready) == 1
+        bpayload, bfirst, blast = ts.of(bs.payload), ts.of(bs.first) == 1, ts.of(bs.last) == 1
+        n = c.nx
+        IW = max(2, (W).bit_length())
+        WW = 8 * W
+
+        busy, idx = c.ghost("busy", 1), c.ghost("idx", IW)
+        cur, cf, cl = c.ghost("cur", WW), c.ghost("cf", 1), c.ghost("cl", 1)
+        nw, nb = c.ghost("nw", NW), c.ghost("nb", NW)
+        k = c.rigid("k", NW)
+        wv, wf, wl = c.ghost("wv", WW), c.ghost("wf", 1), c.ghost("wl", 1)
+        accept = z3.And(I["i_valid"] == 1, O["o_ready"] == 1)          # a word is taken from the wide stream
+        take = z3.And(bvalid, bready)                                  # a byte is taken by the inner endpoint
+        final = idx == W - 1
+        word_done = z3.And(busy == 1, take, final)
+        c.set_next(busy, z3.If(accept, bvc(1, 1), z3.If(word_done, bvc(0, 1), busy)))
+        c.set_next(idx, z3.If(accept, bvc(0, IW), z3.If(z3.And(busy == 1, take, z3.Not(final)), idx + 1, idx)))
+        c.set_next(cur, z3.If(accept, I["i_payload"], cur))
+        c.set_next(cf, z3.If(accept, I["i_first"], cf))
+        c.set_next(cl, z3.If(accept, I["i_last"], cl))
+        c.set_next(nw, z3.If(accept, nw + 1, nw))
+        c.set_next(nb, z3.If(take, nb + 1, nb))
+        hit = z3.And(accept, nw == k)
+        c.set_next(wv, z3.If(hit, I["i_payload"], wv))
+        c.set_next(wf, z3.If(hit, I["i_first"], wf))
+        c.set_next(wl, z3.If(hit, I["i_last"], wl))
+        lane = lambda word, i: z3.Extract(7, 0, z3.LShR(word, zx(i, WW) * 8))   # little-endian lane order: byte i = bits 8i+7..8i
+
+        # ---- representation invariant (the class's own temporaries: try_inv)
+        fsm = ts.fsm("fsm_state")
+        c.inv("fsm_legal", fsm.legal())
+        c.inv("transmit_iff_word_in_flight", fsm.is_("TRANSMIT") == (busy == 1))
+        c.inv("idx_range", z3.ULE(idx, W - 1))
+        c.inv("byte_count", nb + zx(z3.If(busy == 1, bvc(W, IW + 1) - zx(idx, IW + 1), bvc(0, IW + 1)), NW) == nw * W)
+        c.inv("witness_is_current_word", z3.Implies(z3.And(busy == 1, nw - 1 == k), z3.And(wv == cur, wf == cf, wl == cl)))
+        c.try_inv("bytes_to_send", lambda: z3.Implies(busy == 1, zx(ts.sig("bytes_to_send"), IW + 1) == bvc(W - 1, IW + 1) - zx(idx, IW + 1)))
+        # only the lanes still to be sent matter (what the upper lanes hold after shifting is the implementation's business)
+        c.try_inv("data_shift", lambda: z3.And(*[
+            z3.Implies(z3.And(busy == 1, z3.ULE(zx(idx, IW + 1) + j, W - 1)),
+                       z3.Extract(8 * j + 7, 8 * j, ts.sig("data_shift")) == lane(cur, zx(idx, IW + 1) + j)) for j in range(W)]))
+        c.try_inv("first_latched", lambda: z3.Implies(busy == 1, ts.sig("first_latched") == cf))
+        c.try_inv("last_latched", lambda: z3.Implies(busy == 1, ts.sig("last_latched") == cl))
+
+        # ---- ensures
+        c.ensure("byte_offered_iff_word_in_flight", bvalid == (busy == 1),
+                 clause="a byte is offered to the inner endpoint exactly while an accepted word still has bytes not taken (nothing is "
+                        "offered twice or invented)")
+        c.ensure("bytes_are_the_words_bytes_little_endian_in_order",
+                 z3.Implies(bvalid, bpayload == lane(cur, idx)),
+                 clause="the byte offered is byte number (bytes of this word already taken) of the accepted word, least significant lane first")
+        c.ensure("witness_word_bytes_exactly_once_in_order",
+                 z3.Implies(z3.And(take, nw - 1 == k),
+                            z3.And(bpayload == lane(wv, idx), nb == k * W + zx(idx, NW),
+                                   blast == z3.And(wl == 1, final), bfirst == z3.And(wf == 1, idx == 0))),
+                 clause="while the word accepted at word position k (arbitrary) is the most recently accepted one, the byte taken at byte "
+                        "position W*k+i (0 <= i < W, counts modulo 2^16) is lane i of that word: each byte of each accepted word exactly "
+                        "once and in order; `last` exactly on the final byte of a word accepted with `last`, `first` exactly on the "
+                        "first byte of a word accepted with `first`")
+        c.ensure("last_exactly_on_final_byte_of_last_word", z3.Implies(take, blast == z3.And(cl == 1, final)),
+                 clause="`last` is raised on exactly the final byte of a word that was accepted with `last`")
+        c.ensure("first_exactly_on_first_byte_of_first_word", z3.Implies(take, bfirst == z3.And(cf == 1, idx == 0)),
+                 clause="`first` is raised on exactly the first byte of a word that was accepted with `first`")
+        c.ensure("markers_of_a_word_taken_back_to_back",
+                 z3.Implies(z3.And(accept, busy == 1),
+                            n(z3.Implies(z3.And(take, final), blast == (cl == 1)), W)),
+                 clause="(same clause, looking W cycles ahead of a word taken in the very cycle the previous word's final byte is taken) "
+                        "a final byte taken W cycles later carries the `last` of the word in flight then")
+        c.ensure("no_marker_without_byte_taken", z3.Implies(z3.Not(take), z3.And(z3.Not(blast), z3.Not(bfirst))),
+                 clause="no first/last marker while no byte is taken")
+        c.ensure("word_ready_iff_word_really_taken", (O["o_ready"] == 1) == z3.Or(busy == 0, word_done),
+                 clause="the wide stream's ready is raised only when the word is really taken: no word is in flight, or the final byte of "
+                        "the word in flight is taken by the inner endpoint in this very cycle")
+
+        c.cover("back_to_back_word_with_last", z3.And(accept, busy == 1, I["i_last"] == 1, nw == 1))
+        c.cover("last_byte_taken", z3.And(take, blast))
+        c.cover("witness_last_lane", z3.And(take, nw - 1 == k, final, k == 1, wl == 1))
+        c.cover("inner_back_pressure", z3.And(bvalid, z3.Not(bready)), reach=False)
+        c.cover_depth = 2 * W + 6
+    return contract
+
+
 # Caller side (w1_usb2_glue): what the endpoint contract treats as free inputs / observed outputs at its EndpointInterface is
 # connected, in the real USBEndpointMultiplexer and the real USBDevice, to the token detector, the handshake detector and
 # generator, the data packet generator (stream, ready, data PID) and from there to the UTMI transmit lines.
@@ -382,6 +536,14 @@ WIRING = ("tokenizer", "handshakes_in", "handshakes_out", "tx", "utmi_tx")
 
 
 def contracts(tier):
+    import os
+    if os.environ.get("C11_DEV"):
+        yield from [x for x in _contracts(tier) if os.environ["C11_DEV"] in x[0] + "/" + x[1]]
+    else:
+        yield from _contracts(tier)
+
+
+def _contracts(tier):
     from .w1_usb2_glue import mux_wiring, device_wiring
     yield ("USBDataPacketGenerator", "ready_low_at_packet_start", generator_support)
     yield ("USBEndpointMultiplexer", "wiring_3_interfaces", mux_wiring(3, WIRING))
@@ -391,9 +553,11 @@ def contracts(tier):
         yield ("USBEndpointMultiplexer", "wiring_2_interfaces", mux_wiring(2, WIRING))
         yield ("USBDevice", "wiring_ulpi", device_wiring("ulpi", WIRING))
     if tier == "quick":
-        cfgs = [("endpoint", 4), ("endpoint", 8), ("manager", 8)]
+        cfgs = [("endpoint", 4), ("endpoint", 8), ("manager", 8)]      # manager: `discard` is a free input
     else:
         cfgs = [("endpoint", m) for m in (2, 4, 8, 16, 32, 64, 512)] + [("manager", m) for m in (4, 8, 16, 64)]
+    for w in ((2, 4) if tier == "quick" else (2, 3, 4)):
+        yield ("USBMultibyteStreamInEndpoint", f"byte_width{w}", multibyte(w))
     for kind, m in cfgs:
         name = "USBStreamInEndpoint" if kind == "endpoint" else "USBInTransferManager"
-        yield (name, f"max{m}", make(kind, m))
+        yield (name, f"max{m}", make(kind, m, allow_discard=(kind == "manager" or bool(__import__("os").environ.get("C11_EPD")))))
